@@ -237,4 +237,4 @@ def run(rep, tier, seed, replay=None):
         return
     for i in range(n):
         one_case(rep, cs, seed, i)
-    cs.run(shard=max(6, n // 14))
+    cs.run(shard=max(6, 100 // 14))  # shard size of the quick tier: thorough runs use more files, not longer ones
